@@ -200,6 +200,37 @@ func propC18(c *Ctx) {
 	// ---- R18.4 ----------------------------------------------------------
 	c.Rule("R18.4", "blocks from the shared block map are mutated only under the block lock; guarded storage is not handed out", 4)
 	checkBlockMapMutation(c, "R18.4")
+	// (c) guarded storage must not alias memory the caller keeps writing: a guarded slice/map/pointer
+	//     field is never assigned a parameter (copy it, as Bytes.Write does)
+	for _, row := range guardedByTable {
+		f := w.FieldOpt(row.short, row.typ, row.field)
+		if f == nil {
+			continue
+		}
+		switch f.Type().Underlying().(type) {
+		case *types.Slice, *types.Map, *types.Pointer:
+		default:
+			continue
+		}
+		for _, fn := range w.RepoFuncs() {
+			allInstrs(fn, func(in ssa.Instruction) {
+				st, ok := in.(*ssa.Store)
+				if !ok {
+					return
+				}
+				if sf, _ := fieldOf(st.Addr); sf != f {
+					return
+				}
+				if isLocalAlloc(accessPath(st.Addr.(*ssa.FieldAddr).X).Root) {
+					return
+				}
+				if p, isParam := stripConv(st.Val).(*ssa.Parameter); isParam {
+					c.Violation("R18.4", fmt.Sprintf("%s/%s.%s-aliases-parameter", fnName(fn), row.typ, row.field), st.Pos(),
+						fmt.Sprintf("guarded field %s.%s is assigned the caller's %s itself: the caller (e.g. a poller reusing its decode buffer) keeps writing memory that readers copy under the lock", row.typ, row.field, p.Name()))
+				}
+			})
+		}
+	}
 	// (b) escape of guarded storage
 	for _, row := range guardedByTable {
 		f := w.FieldOpt(row.short, row.typ, row.field)
@@ -338,7 +369,28 @@ func propC18Captured(c *Ctx, res *Resolver, isJoin func(ssa.Instruction) bool) {
 				ord++
 				key := fmt.Sprintf("%s/store-to-%s#%d", fnName(cl), fv.Name(), ord)
 				if len(ls[st]) > 0 {
-					c.OK("R18.2", key, st.Pos(), "write to captured `"+fv.Name()+"` under "+stateString(ls[st]))
+					// every other access of this captured variable in the closure must hold one of those locks too
+					var unlocked []string
+					for _, ref := range *fv.Referrers() {
+						if ref == ssa.Instruction(st) {
+							continue
+						}
+						switch ref.(type) {
+						case *ssa.UnOp, *ssa.Store:
+						default:
+							continue
+						}
+						common := false
+						for k := range ls[st] {
+							if ls[ref][k] {
+								common = true
+							}
+						}
+						if !common {
+							unlocked = append(unlocked, w.Pos(instrPos(ref)))
+						}
+					}
+					c.Check("R18.2", key, st.Pos(), len(unlocked) == 0, "write to captured `"+fv.Name()+"` under "+stateString(ls[st])+"; accesses of the same variable in this goroutine outside that lock: "+fmt.Sprint(unlocked))
 					return
 				}
 				// the cell in the spawner
